@@ -9,11 +9,13 @@ theorem extendTimer_fields (e : Env) (w : W) (c : Nat) :
     (extendTimer e w c).nd.lastCv = w.nd.lastCv ∧ (extendTimer e w c).nd.chain = w.nd.chain ∧
     (extendTimer e w c).nd.bi = w.nd.bi ∧ (extendTimer e w c).nd.view = w.nd.view ∧
     (extendTimer e w c).nd.pidx = w.nd.pidx ∧ (extendTimer e w c).nd.blockProcessed = w.nd.blockProcessed ∧
-    (extendTimer e w c).nd.cache = w.nd.cache ∧ (∀ pl, Out.bcast pl ∈ (extendTimer e w c).out → Out.bcast pl ∈ w.out) := by
+    (extendTimer e w c).nd.cache = w.nd.cache ∧ (∀ pl, Out.bcast pl ∈ (extendTimer e w c).out → Out.bcast pl ∈ w.out) ∧
+    (∀ b s, Out.block b s ∈ (extendTimer e w c).out → Out.block b s ∈ w.out) := by
   unfold extendTimer
   split
-  · exact ⟨rfl, rfl, rfl, rfl, rfl, rfl, rfl, rfl, rfl, rfl, rfl, fun pl hp => by simpa [W.upd, W.emit] using hp⟩
-  · exact ⟨rfl, rfl, rfl, rfl, rfl, rfl, rfl, rfl, rfl, rfl, rfl, fun pl hp => hp⟩
+  · exact ⟨rfl, rfl, rfl, rfl, rfl, rfl, rfl, rfl, rfl, rfl, rfl, fun pl hp => by simpa [W.upd, W.emit] using hp,
+      fun b s hp => by simpa [W.upd, W.emit] using hp⟩
+  · exact ⟨rfl, rfl, rfl, rfl, rfl, rfl, rfl, rfl, rfl, rfl, rfl, fun pl hp => hp, fun b s hp => hp⟩
 
 /-- storing a Commit of another validator -/
 theorem good_set_commit {e : Env} {as : State} {i : Nat} {w : W} (h : Good e as i w) (hbp : w.nd.blockProcessed = false)
@@ -25,11 +27,11 @@ theorem good_set_commit {e : Env} {as : State} {i : Nat} {w : W} (h : Good e as 
   obtain ⟨hbi, hview, hgp, hgc⟩ := h.synced hbp
   have hxm : x.frm ≠ i := by
     intro heq
-    have : w.nd.commitSent = true := hgc ⟨sb, by rw [← heq]; exact hc.1, by rw [hc.2, hxh]⟩
+    have : w.nd.commitSent = true := hgc ⟨sb, by rw [← heq]; exact hc.1, by rw [hc.2.1, hxh]⟩
     unfold Node.commitSent at this
     rw [rn.my, ← heq, hempty] at this; cases this
   refine ⟨⟨h.g, ⟨rn.my, by simpa [W.upd] using rn.lens, rn.chain, rn.height, ?_, rn.pidx, rn.prep, ?_, rn.cv, rn.lastCv,
-    rn.cache, ?_⟩, h.outs, h.st, h.lt⟩, hxm⟩
+    rn.cache, ?_⟩, h.outs, h.blk, h.st, h.lt⟩, hxm⟩
   · left
     refine ⟨hbi, hview, hgp, ?_⟩
     intro hg
@@ -44,7 +46,7 @@ theorem good_set_commit {e : Env} {as : State} {i : Nat} {w : W} (h : Good e as 
     · subst hjm
       simp only [W.upd, slot_set_self _ _ _ hlen, Option.some.injEq] at hj
       subst hj
-      exact ⟨x, sb, rfl, rfl, hxh, hc.1, by rw [hc.2, hxh]; rfl⟩
+      exact ⟨x, sb, rfl, rfl, hxh, hc.1, by rw [hc.2.1, hxh]; rfl, hc.2.2⟩
     · simp only [W.upd, slot_set_other _ _ _ _ hjm] at hj
       exact rn.commit j m hj
   · intro y sb' hj
@@ -77,9 +79,9 @@ theorem prog_onCommit {e : Env} {as : State} {i : Nat} {w : W} (h : Good e as i 
     · split
       · exact prog_checkCommit g2 b2
       · -- the signature is not for the header: the slot is emptied again
-        obtain ⟨f1, f2, f3, f4, f5, f6, f7, f8, f9, f10, f11, f12⟩ :=
+        obtain ⟨f1, f2, f3, f4, f5, f6, f7, f8, f9, f10, f11, f12, f13⟩ :=
           extendTimer_fields e (w.upd fun nd => { nd with commit := nd.commit.set x.frm (some (.commit x sb)) }) 4
-        refine Prog.of_good (h.congr ?_ ?_ ?_ ?_ ?_ ?_ ?_ ?_ ?_ ?_ ?_ ?_)
+        refine Prog.of_good (h.congr ?_ ?_ ?_ ?_ ?_ ?_ ?_ ?_ ?_ ?_ ?_ ?_ ?_)
         · exact f1
         · exact f2
         · show ((extendTimer e _ 4).nd.commit).set x.frm none = w.nd.commit
@@ -93,6 +95,7 @@ theorem prog_onCommit {e : Env} {as : State} {i : Nat} {w : W} (h : Good e as i 
         · intro hb; rw [hbp] at hb; cases hb
         · exact f11
         · exact f12
+        · exact f13
   · rw [if_neg hv]; exact Prog.of_good g1
 
 end NeoModel.Dbft.Mach
